@@ -20,6 +20,7 @@ Result *kinds* follow NumPy: ufuncs on 0-d operands give scalars (SymFloat/SymBo
 from __future__ import annotations
 
 import itertools
+import re
 import math
 
 import numpy as np
@@ -38,6 +39,7 @@ class _State:
         self.fexact = False          # Mode F: exact mul/div/sqrt instead of relaxed constants
         self.fork_where = False      # fork np.where conditions (always on in Mode F)
         self.box_scalars = False     # scalar(<python number>) gives a 0-d SymArray (for in-place accumulators)
+        self.format_decimals = None  # decimals in force when numbers are printed as placeholders (set by harnesses that vary them)
         self.pyfloats = False        # PyRFloat values (plain Python floats) are in use: arrays store them as NumPy numbers
         self.explorer = None
         self.side = []               # side constraints used on the current path (z3 Bool)
@@ -336,6 +338,9 @@ def tb_(o):
 # ----------------------------------------------------------------------------------------------
 # SymFloat (abstract) ------------------------------------------------------------------------
 # ----------------------------------------------------------------------------------------------
+_FIXED_SPEC = re.compile(r"0?\.(\d+)f")
+
+
 class SymFloat:
     __hash__ = None
     ndim = 0
@@ -437,7 +442,25 @@ class SymFloat:
         c = self.concrete()
         if c is not None:
             return format(c, spec)
+        if S.format_decimals is not None and S.mode == "R":
+            # numbers travel as placeholders, valid for values representable at the decimals in force (S.format_decimals, set by the
+            # harness).  A fixed-point format with FEWER decimals than that loses digits: the text stands for the rounded value
+            m = _FIXED_SPEC.fullmatch(spec or "")
+            if m and int(m.group(1)) < S.format_decimals:
+                return self._rounded(int(m.group(1)))._token()
         return self._token()
+
+    def _rounded(self, n):
+        """the value rounded to n decimals (what printing with n decimals and reading back gives): an integer multiple of 10^-n at
+        distance <= 0.5 * 10^-n; NaN and the infinities are themselves"""
+        def build():
+            k = z3.Int(f"round{n}!{next(S.fresh)}")
+            y = z3.ToReal(k) / (10 ** n)
+            half = z3.Q(1, 2 * 10 ** n)
+            return y, [z3.Or(z3.Not(ZB(self.fin())), z3.And(y - self.v <= half, self.v - y <= half))]
+
+        y = _memo(f"rounded{n}", (self.v,), build)
+        return RFloat(z3.If(ZB(self.fin()), y, self.v), self.nan, self.pinf, self.ninf)
 
     # arithmetic with arrays -> elementwise
     def _bin(self, o, f, swap=False):
